@@ -32,7 +32,9 @@ PROPERTIES = {
         "translators": [translate_fn],
         "kind": "functional",
         "trusted": [
-            "translate/int2str.py (narrow parser of the 22 anchored source files -> Generated/Int2Str.lean); its output is "
+            "translate/int2str.py (parser of the C++ subset used by the 22 anchored source files + abstract interpreter: "
+            "control flow and value-independent counters are executed with the C++ integer rules, value-dependent parts "
+            "become the tables of Generated/Int2Str.lean; raises on anything it has no exact meaning for); its output is "
             "executed by the model driver and compared with the real library on every run",
             "interpreter and decidable table checks in Model/Int2Str.lean (C++ integer conversions, integer promotion "
             "to a 32-bit int, uint8_t truncation, checked stores)",
